@@ -102,7 +102,9 @@ def run(tier, seed):
     if tier == "thorough":
         j2 = hist_const_job("C06", [1, 3], NAMES, unwind=8)
         obs += j2.run()
-        j3 = hist_job("C06", [100], [NAMES[0]], unwind=104, timeout=3000)
+        # LEN = 100 does not terminate within 2700 s in CBMC (LEN = 40 needs ~12 min): the largest complete proof is LEN = 40,
+        # LEN = 100 stays with the bounded linear-scan corpus
+        j3 = hist_job("C06", [40], [NAMES[0]], unwind=44, timeout=2700, harness_timeout=2400)
         obs += j3.run()
     meta = dict(COMMON_META)
     meta.update({
@@ -113,7 +115,7 @@ def run(tier, seed):
         "source_files": [F, FC, "src/lib.rs"],
         "assumptions": [
             "modular part: find carries a Kani function contract (requires valid edges; ensures the half-open-bin postcondition), proved by proof_for_contract for LEN = 3; add is proved from that contract alone (stub_verified) for LEN in {3, 10}",
-            "LEN = 33 and LEN = 100: BOUNDED linear-scan corpus only in the quick tier (find.linear_scan_corpus, listed under `bounded`); the complete Kani proof for LEN = 100 is in the thorough tier",
+            "LEN = 33 and LEN = 100: BOUNDED linear-scan corpus only in the quick tier (find.linear_scan_corpus, listed under `bounded`); the largest complete Kani proof of find is LEN = 40 (thorough tier, ~12 min); LEN = 100 did not terminate within 2700 s",
             "find.iff_bin_unique additionally for LEN = 10 (average::Histogram10) in the quick tier",
             "configurations: LEN in %s (complete per LEN: edges are LEN+1 fully symbolic f64 constrained only by validity, "
             "x is every f64); other LEN are not covered by this run" % lens,
